@@ -23,6 +23,34 @@ CHECKS = {
    technique="explicit-state BFS over the real handlers with role invariants evaluated on every transition",
    text="All event sequences over the host-call alphabet (timers, transmit timestamps, BMCA, run-time slave-only/quality changes, Announce from better/worse/own-clock masters, Sync/Follow_Up/Delay_Resp/Delay_Req/Pdelay traffic) to a depth bound for nine instance configurations with 1-3 ports (E2E/P2P, master-only, slave-only, obedient and arbitrary host), with the real Kalman filter and a port-tagged recording clock. Invariants: at most one slave/steering port; clock commands only from the slave port; master-only never slave; slave-only never master (from start / after the next BMCA); frame types by role.",
    note="Depth-bounded, not closed; bounds are in the evidence per world."),
+ "C09": dict(level="model_checking", engine="E1+E3", design="DESIGN.md 4/C09",
+   technique="explicit-state BFS over the real slave-port handlers with the measurement log in the state; oracle computed from the frames and timestamps actually delivered; plus an exhaustive arithmetic lattice for single exchanges",
+   text="All interleavings, duplications and omissions (to a depth bound) of two or three Sync exchanges (two-step Sync, Follow_Up, one-step Sync), delay requests, two transmit-timestamp values, matching/stale/foreign Delay_Resp, with sequence ids around the wrap and three delay asymmetries. Every timestamp and correction is tagged so that a value combined from two exchanges equals no legitimate value; every Measurement handed to the recording filter must be bit-exact for the parts of one exchange that have all arrived, offset = raw - last mean delay, delay = (last raw sync - raw delay)/2. Lattice: one- and two-step exchanges over second/nanosecond boundaries, sub-ns fractions, correction signs, asymmetries.",
+   note="The recording filter returns each delay as the mean delay; underflow domain (negative intermediates) belongs to C03/C16."),
+ "C10": dict(level="model_checking", engine="E1+E3", design="DESIGN.md 4/C10",
+   technique="bounded exhaustive enumeration of timestamp/request-header lattices on real master ports, 65540-emission histories per message type, and a frame monitor on an explicit-state BFS over the real handlers; all frames decoded by the reference codec",
+   text="Follow_Up (same id as its Sync, one per reported timestamp also when reported out of order, origin + correction = timestamp to 2^-16 ns), Delay_Resp (requester and id echoed, receive time + request correction), Pdelay_Resp/_Follow_Up (echo, ns-exact times) over timestamps up to 2^48 s with sub-ns fractions and 36 request headers; Pdelay_Req answered in every port state; ids +1 mod 2^16 over 65540 emissions of Sync/Announce/Delay_Req/Pdelay_Req; every frame of every explored transition (13 worlds incl. role changes around armed timers) decodes under the library's own parser and the reference, bears identity/domain/sdoId/version, fits 1024 octets, at most one event send per action set.",
+   note="Pdelay times are judged to the nanosecond as the property says."),
+ "C11": dict(level="model_checking", engine="E1+E3", design="DESIGN.md 4/C11",
+   technique="explicit-state BFS over real boundary clocks with a monitor comparing every emitted Announce (reference-decoded) with the data-set getters and those with the delivered Announces / own attributes; plus a parent-content lattice",
+   text="Boundary clocks with two and three ports and a grandmaster world: all sequences (depth bound) of parent content change, parent naming another grandmaster, better master on another port, worse master, parent loss by timeout, quality changes, announce timers, BMCA. Oracles: Announce == getters; an Announce from the current parent is applied at once; after BMCA the data sets equal the parent's last Announce (+1 step) or, when no port is slave, the instance's own current attributes with stepsRemoved 0. Lattice: all 64 time-property flag combinations x 5 UTC offsets, all 256 timeSource octets, quality/priority/stepsRemoved products through a real boundary clock.",
+   note="Between an announce receipt timeout and the next BMCA the previous parent's data remain (documented assumption); leap59+leap61 decode as leap59."),
+ "C12": dict(level="model_checking", engine="E1", design="DESIGN.md 4/C12",
+   technique="explicit-state BFS over the real handlers under an obedient host; from every explored state a deterministic timed continuation (silence / steady better master) with timers fired exactly as armed; timer-dependency invariant on every transition",
+   text="Nine worlds (E2E/P2P, slave-only, two ports, boundary clock, recovery from peer-delay faults) explored to a depth bound twice: every reached state is continued under total silence (each port that may be master is master within 2 x receipt timeout + 5 intervals, then Announce and Sync at exactly the configured interval) and under a steadily announcing better master with Sync/Follow_Up and delay service (slave within 5.5 intervals - passive for clockClass < 128 - and delay requests at most 2 intervals apart). Invariant: a listening port has its receipt timer armed, a master port its announce and sync timers, a slave port its delay timer.",
+   note="Timers fire at now + armed duration with a fixed rng fraction; ports disabled by a peer-delay fault are excepted as the property says."),
+ "C14": dict(level="model_checking", engine="E1", design="DESIGN.md 4/C14",
+   technique="explicit-state BFS over the real P2P port handlers with the measurement log in the state; oracle computed from the delivered frames",
+   text="P2P port in listening, master, slave and passive base states; all interleavings (depth bound) of two requests, two transmit-timestamp values, two-step and one-step responses and follow-ups of three responders (one a second port of the first responder's clock) for current and previous ids, together with receipt/announce/sync timers, BMCA, Announces (incl. the instance's own lower port), Sync and Delay_Req. Link delay must be bit-exact for one request and one responder; a frame of another responder for the still-current request makes the port faulty at once and is not used; a faulty port emits no master messages, does not steer, and leaves the state only through an exchange answered by exactly one responder.",
+   note="A second responder arriving after the next request went out must only have no effect."),
+ "C15": dict(level="exploration", engine="E3+E1", design="DESIGN.md 4/C15",
+   technique="bounded exhaustive enumeration of TLV type/size/sender/path-length lattices and of all short arrival/timer sequences over a real boundary clock using the daemon's real TlvForwarder, against a reference forwarding queue",
+   text="Boundary clock with one slave and one to three master ports; providers: the real statime-linux TlvForwarder (one duplicate per port) and minimal providers honouring the contract with < and <=. Single TLVs (12 type classes x every even length 0..1100 x parent/other/unacceptable sender), pairs of sizes around the remaining room (one or two Announces, with announces in between), all sequences to depth 4|6 over arrivals/announce timers/parent switch, 130-Announce overflow, path lengths 0..200 with loops at every position class and path+TLV filling the frame. Every emitted Announce must carry exactly the reference prefix of the port's queue, fit 1024 octets, be emitted and parse; pathTraceDS equals the received path; a looped Announce changes nothing.",
+   note="The main.rs glue is represented by the harness host; tlv_forwarder.empty() in the binary-only ethernet task is not executed."),
+ "C18": dict(level="model_checking", engine="E1+E2", design="DESIGN.md 4/C18",
+   technique="enumeration of all operation sequences (no deduplication) on the real OverlayClock against an exact fixed-point reference clock, plus deviation-bounded length-50 histories",
+   text="All sequences to depth 6|7 over set_frequency {-500,-1,0,1,500}, step_clock {-10 s,-1 ns,0,1 ns,10 s}, advance {0,1 ns,1 s,1e4 s} from starts 10 s, 1e9 s and 2^47 s; a cyclic length-50 history with all <=2 substitutions. After every operation: continuity across frequency changes, exact step size, rate (1+ppm/1e6), return value == now(), time_from_underlying(current) == reading.",
+   note="Reference resolution 2^-40 ns, tolerance 2^-20 ns + 2^-30 ns."),
  "C13": dict(level="model_checking", engine="E1", design="DESIGN.md 4/C13",
    technique="enumeration of all measurement sequences over an adversarial alphabet (no deduplication) on the real filters, plus explicit-state BFS at port level for the leave-slave clause",
    text="All sequences up to a length bound over {sync, raw sync, delay, peer} x offsets {0..+-1e9 s} x event-time steps {repeat, +1 ns, +1 s, +1000 s, backwards} and update(), closed by demobilize(), on KalmanFilter (three configurations, three start times) and BasicFilter (two gains), with single/double failing clock calls; every set_frequency/step_clock argument is judged (finite, within max_freq_offset, at least step_threshold). Port level: BFS from slave states with absorbed measurements over every way of leaving slave and every continuation.",
